@@ -554,13 +554,17 @@ def specialise(expr, env):
             return n
 
         def visit_IfExp(self, n):
-            self.generic_visit(n)
+            r_ = self.generic_visit(n)
+            if r_ is not n:
+                return r_
             if isinstance(n.test, ast.Constant):
                 return n.body if n.test.value else n.orelse
             return n
 
         def visit_Call(self, n):
-            self.generic_visit(n)
+            r_ = self.generic_visit(n)
+            if r_ is not n:
+                return r_
             if call_name(n) == "__gamma__" and len(n.args) == 3:
                 t = n.args[0]
                 if isinstance(t, ast.Constant):
@@ -569,13 +573,17 @@ def specialise(expr, env):
             return n
 
         def visit_UnaryOp(self, n):
-            self.generic_visit(n)
+            r_ = self.generic_visit(n)
+            if r_ is not n:
+                return r_
             if isinstance(n.op, ast.Not) and isinstance(n.operand, ast.Constant):
                 return ast.Constant(value=not n.operand.value)
             return n
 
         def visit_BoolOp(self, n):
-            self.generic_visit(n)
+            r_ = self.generic_visit(n)
+            if r_ is not n:
+                return r_
             vals = []
             for v in n.values:
                 if isinstance(v, ast.Constant) and isinstance(v.value, bool):
@@ -593,7 +601,9 @@ def specialise(expr, env):
             return n
 
         def visit_Compare(self, n):
-            self.generic_visit(n)
+            r_ = self.generic_visit(n)
+            if r_ is not n:
+                return r_
             if len(n.ops) == 1 and isinstance(n.ops[0], (ast.Is, ast.IsNot)) and isinstance(n.comparators[0], ast.Constant) and n.comparators[0].value is None:
                 l = n.left
                 if isinstance(l, ast.Constant) and l.value is None:
